@@ -132,6 +132,12 @@ fn drive_reader(bytes: &[u8], rs: &RSchema, kind: &ReaderKind, nvals: usize, fai
 
 /// Returns a violation signature if the outcome breaks the expectation
 fn judge(out: &Outcome, vals: &[Val], exp: Expectation, damage_is_truncation_or_io: bool) -> Option<String> {
+	judge2(out, vals, exp, damage_is_truncation_or_io, false)
+}
+
+/// `every_error_is_framing`: the damage is in the block framing (count / size / sync / CRC), so the
+/// first reported error is unrecoverable by nature: only end of stream may follow
+fn judge2(out: &Outcome, vals: &[Val], exp: Expectation, damage_is_truncation_or_io: bool, every_error_is_framing: bool) -> Option<String> {
 	let mut next = 0usize;
 	let mut seen_err = false;
 	let mut errs_in_a_row = 0usize;
@@ -168,7 +174,7 @@ fn judge(out: &Outcome, vals: &[Val], exp: Expectation, damage_is_truncation_or_
 				if framing_or_io_err_seen {
 					return Some("error-repeated-after-unrecoverable-error (expected end of stream)".into());
 				}
-				if e.contains("injected") || e.contains("sync marker") || e.contains("Encountered IO error") {
+				if every_error_is_framing || e.contains("injected") || e.contains("sync marker") || e.contains("Encountered IO error") {
 					framing_or_io_err_seen = true;
 				}
 			}
@@ -356,16 +362,24 @@ pub fn run_case(ctx: &mut Ctx, case_seed: u64) {
 					v.extend_from_slice(&file[to..]);
 					v
 				};
-				for (label, newc) in [("count-1", b.count - 1), ("count+1", b.count + 1), ("count+7", b.count + 7), ("count=0", 0)] {
-					if newc < 0 || newc == b.count {
+				for (label, newc) in [
+					("count-1", b.count - 1),
+					("count+1", b.count + 1),
+					("count+7", b.count + 7),
+					("count=0", 0),
+					("count=-1", -1),
+					("count=-c", -b.count),
+					("count=min", i64::MIN),
+				] {
+					if (newc < 0 && !label.starts_with("count=")) || newc == b.count {
 						continue;
 					}
 					let mut r = Vec::new();
 					put_long(newc, &mut r);
 					variants.push((format!("block {bi} {label}"), splice(b.offs[0], b.offs[1], &r)));
 				}
-				for (label, news) in [("size-1", b.size - 1), ("size+1", b.size + 1), ("size-16", b.size - 16)] {
-					if news < 0 {
+				for (label, news) in [("size-1", b.size - 1), ("size+1", b.size + 1), ("size-16", b.size - 16), ("size=-1", -1), ("size=-s", -b.size - 1)] {
+					if news < 0 && !label.starts_with("size=") {
 						continue;
 					}
 					let mut r = Vec::new();
@@ -396,7 +410,7 @@ pub fn run_case(ctx: &mut Ctx, case_seed: u64) {
 					match drive_reader(&damaged, &rs, &kind, n, None) {
 						Err(_) => ctx.count("field_rewrites_detected"),
 						Ok(out) => {
-							if let Some(sig) = judge(&out, &vals, Expectation::MustErr, false) {
+							if let Some(sig) = judge2(&out, &vals, Expectation::MustErr, false, true) {
 								let class = label.split_whitespace().nth(2).unwrap_or(&label).split(|c: char| c == '+' || c == '-' || c == '=').next().unwrap_or("").to_owned();
 								let class = if label.starts_with("header") { "header-sync".to_owned() } else { class };
 								ctx.violation(
